@@ -4,16 +4,18 @@
    logged observables (WantlistForPeer of every peer, pending topics of every peer's task queue,
    envelope contents) must equal what the specification computes; the free choices of the spec
    (which of several equally important wants is evicted / admitted) are read off the log and checked
-   for admissibility.  Deviations listed in Devs may be used where the ideal step does not match. *)
+   for admissibility.  `mode` (any subset of Devs, fixed for the whole trace) is the set of named
+   deviations the code under test exhibits; `dev` collects those that actually changed a result. *)
 EXTENDS BitswapEngine
 
 Trace == ndJsonDeserialize("trace.ndjson")
-VARIABLE l
-tvars == <<vars, l>>
+VARIABLES l,      \* next trace index
+          mode    \* the deviations the code under test has (constant along a run of TLC)
+tvars == <<vars, l, mode>>
 ASSUME TLCSet(1, 0)
 
 Ev == Trace[l]
-IsEvent(e) == l <= Len(Trace) /\ Trace[l].ev = e /\ l' = l + 1
+IsEvent(e) == l <= Len(Trace) /\ Trace[l].ev = e /\ l' = l + 1 /\ UNCHANGED mode
 NoDup(s) == Cardinality(ToSet(s)) = Len(s)
 Raw(es) == [i \in 1..Len(es) |-> [c |-> es[i][1], prio |-> es[i][2], wt |-> es[i][3],
                                   cancel |-> es[i][4], sdh |-> es[i][5]]]
@@ -23,7 +25,7 @@ ViewSet(L, G) == {<<c, L[c].prio, L[c].wt>> : c \in Dom(L)} \cup {<<c, G[c].prio
 WlOK(p)   == PerPeer(Ev.wl, p) = ViewSet(ledger'[p], ghost'[p])
 PendOK(p) == PerPeer(Ev.pend, p) = QDom(q'[p])
 
-TInit == /\ l = 1
+TInit == /\ l = 1 /\ mode \in SUBSET Devs
          /\ cfg = [limit |-> 1, replace |-> FALSE, sdh |-> TRUE, deny |-> [p \in Peers |-> {}],
                    ignored |-> {}, big |-> {}]
          /\ bs = {}
@@ -46,8 +48,8 @@ TRecv ==
          ents == MergeInto(<<>>, Raw(Ev.es))
          after == {w[1] : w \in PerPeer(Ev.wl, p)}
          pa    == PerPeer(Ev.pend, p)
-     IN \E D \in SUBSET (Devs \cap RecvDevs) :
-          LET s   == Stage1(D, p, Ev.full, ents)
+         D     == mode \cap RecvDevs
+     IN   LET s   == Stage1(D, p, Ev.full, ents)
               X0  == s.E \ (after \cup s.cancels)
               amb == (s.E \cap s.cancels) \ after       \* cancelled in the same message: evicted or not
               Y   == s.O \cap after
@@ -60,14 +62,14 @@ TRecv ==
   /\ \A p \in Peers : WlOK(p) /\ (Ev.pk \/ PendOK(p))
 
 TAdd == /\ IsEvent("Add") /\ Ev.c \in Cids
-        /\ \E D \in SUBSET (Devs \cap AddDevs) : AddBlock(D, Ev.c)
+        /\ AddBlock(mode \cap AddDevs, Ev.c)
         /\ \A p \in Peers : WlOK(p) /\ (Ev.pk \/ PendOK(p))
 
 TRemove == IsEvent("Remove") /\ Ev.c \in Cids /\ RemoveBlock(Ev.c)
 
 TEnv == /\ IsEvent("Env") /\ Ev.detail = "" /\ Ev.p \in Peers
         /\ NoDup(Ev.blocks) /\ NoDup(Ev.haves) /\ NoDup(Ev.dhs)
-        /\ \E D \in SUBSET (Devs \cap EnvDevs) : Envelope(D, Ev.p)
+        /\ Envelope(mode \cap EnvDevs, Ev.p)
         /\ out'.blocks = ToSet(Ev.blocks) /\ out'.haves = ToSet(Ev.haves) /\ out'.dhs = ToSet(Ev.dhs)
         /\ ToSet(Ev.wl) = ViewSet(ledger'[Ev.p], ghost'[Ev.p])
         /\ ToSet(Ev.pend) = QDom(q'[Ev.p])
